@@ -213,3 +213,139 @@ def runStages (catch_ : Catch) (flatten : Bool) (tp : TreePath) (a : Ann) (o : A
   | .unknown :: _, _ => none
 
 end JV
+
+namespace JV
+
+/-! ### `_check_shape`: the rank tests and the slices around the multi-axis specifier
+
+The index arithmetic of `_check_shape` (`i = cls.index_variadic`, `j = -(len(cls.dims) - i - 1)`,
+`if j == 0: j = None`, `cls.dims[:i]`, `obj.shape[j:]`, `obj.shape[i:j]`, …) is translated into a
+`SlicePlan`; Python's slice semantics is `pyBound`. `Properties/C01.lean` proves on every run that
+the slices the source takes are the `take` / `drop` the model (`checkShape`, `toShape`) uses. -/
+
+/-- integer expressions over `cls.index_variadic`, `len(cls.dims)`, `len(obj.shape)` -/
+inductive IExp
+  | iv | lenDims | lenShape
+  | lit (k : Int)
+  | neg (a : IExp)
+  | sub (a b : IExp)
+  | add (a b : IExp)
+  | unknown
+  deriving Repr
+
+def IExp.eval (iv n m : Int) : IExp → Option Int
+  | .iv => some iv
+  | .lenDims => some n
+  | .lenShape => some m
+  | .lit k => some k
+  | .neg a => (a.eval iv n m).map (- ·)
+  | .sub a b => (match a.eval iv n m, b.eval iv n m with | some x, some y => some (x - y) | _, _ => none)
+  | .add a b => (match a.eval iv n m, b.eval iv n m with | some x, some y => some (x + y) | _, _ => none)
+  | .unknown => none
+
+inductive ICmp | ne | eq | lt | le | gt | ge
+  deriving DecidableEq, Repr
+
+def ICmp.holds : ICmp → Int → Int → Bool
+  | .ne, x, y => x != y
+  | .eq, x, y => x == y
+  | .lt, x, y => x < y
+  | .le, x, y => x ≤ y
+  | .gt, x, y => x > y
+  | .ge, x, y => x ≥ y
+
+/-- a slice bound as the source writes it: omitted, the local `i`, or the local `j` -/
+inductive Bnd | omitted | i | j | unknown
+  deriving DecidableEq, Repr
+
+structure SlicePlan where
+  /-- `if <lhs> <op> <rhs>: return <message>` when there is no multi-axis specifier -/
+  noVarFail : IExp × ICmp × IExp
+  /-- the same test in the branch with a multi-axis specifier -/
+  varFail : IExp × ICmp × IExp
+  i : IExp
+  j : IExp
+  /-- `if j == 0: j = None` follows the assignment of `j` -/
+  jNoneIfZero : Bool
+  /-- the suffix check sits under `if j is not None:` -/
+  suffixGuarded : Bool
+  prefixDims : Bnd × Bnd
+  prefixShape : Bnd × Bnd
+  suffixDims : Bnd × Bnd
+  suffixShape : Bnd × Bnd
+  /-- `obj.shape[i:j]`, where the name is bound for the first time and where it is compared -/
+  midFirst : Bnd × Bnd
+  midBound : Bnd × Bnd
+  /-- `variadic_dim = cls.dims[<index>]` -/
+  varIndex : Bnd
+  deriving Repr
+
+/-- Python's normalisation of a slice bound `x` for a sequence of length `len` (step 1) -/
+def pyBound (len : Nat) (x : Int) : Nat :=
+  if x < 0 then (x + len).toNat else min x.toNat len
+
+/-- `l[lo:hi]` with the bounds already normalised -/
+def sliceNat {α : Type} (l : List α) (a b : Nat) : List α := (l.drop a).take (b - a)
+
+/-- the normalised `(start, stop)` of a slice of a sequence of length `len`; `j = none` is Python's `None` -/
+def boundsOf (len : Nat) (i : Int) (j : Option Int) : Bnd × Bnd → Option (Nat × Nat)
+  | (lo, hi) =>
+    let one : Bnd → Nat → Option Nat
+      | .omitted, dflt => some dflt
+      | .i, _ => some (pyBound len i)
+      | .j, dflt => some ((j.map (pyBound len)).getD dflt)
+      | .unknown, _ => none
+    match one lo 0, one hi len with
+    | some a, some b => some (a, b)
+    | _, _ => none
+
+/-- everything the plan computes for `n = len(cls.dims)`, `m = len(obj.shape)`, `iv = cls.index_variadic` -/
+structure SliceVals where
+  noVarFail : Bool
+  varFail : Bool
+  prefixDims : Nat × Nat
+  prefixShape : Nat × Nat
+  /-- `none` = the suffix check is skipped -/
+  suffixDims : Option (Nat × Nat)
+  suffixShape : Option (Nat × Nat)
+  midFirst : Nat × Nat
+  midBound : Nat × Nat
+  varIndex : Nat
+  deriving DecidableEq, Repr
+
+def SlicePlan.vals (p : SlicePlan) (n m iv : Nat) : Option SliceVals :=
+  let ev := IExp.eval iv n m
+  let cmp : IExp × ICmp × IExp → Option Bool := fun (a, op, b) =>
+    match ev a, ev b with
+    | some x, some y => some (op.holds x y)
+    | _, _ => none
+  match cmp p.noVarFail, cmp p.varFail, ev p.i, ev p.j with
+  | some f1, some f2, some i, some j0 =>
+    let j : Option Int := if p.jNoneIfZero && j0 == 0 then none else some j0
+    -- a suffix check that is not guarded runs with `j = None` too
+    let runSuffix := !(p.suffixGuarded && j.isNone)
+    match boundsOf n i j p.prefixDims, boundsOf m i j p.prefixShape, boundsOf n i j p.suffixDims,
+          boundsOf m i j p.suffixShape, boundsOf m i j p.midFirst, boundsOf m i j p.midBound with
+    | some pd, some ps, some sd, some ss, some mf, some mb =>
+      (match p.varIndex with
+       | .i => if 0 ≤ i then
+           some { noVarFail := f1, varFail := f2, prefixDims := pd, prefixShape := ps,
+                  suffixDims := if runSuffix then some sd else none,
+                  suffixShape := if runSuffix then some ss else none,
+                  midFirst := mf, midBound := mb, varIndex := i.toNat }
+         else none
+       | _ => none)
+    | _, _, _, _, _, _ => none
+  | _, _, _, _ => none
+
+/-- what the model uses: `pre = dims.take i`, `suf = dims.drop (i + 1)`, `shape.take i`,
+    `shape.drop (m - s)`, `(shape.drop i).take (m - i - s)` with `s = n - i - 1` -/
+def sliceSpec (n m i : Nat) : SliceVals :=
+  let s := n - i - 1
+  { noVarFail := m != n, varFail := decide (m < n - 1),
+    prefixDims := (0, i), prefixShape := (0, i),
+    suffixDims := if s = 0 then none else some (i + 1, n),
+    suffixShape := if s = 0 then none else some (m - s, m),
+    midFirst := (i, m - s), midBound := (i, m - s), varIndex := i }
+
+end JV
